@@ -379,22 +379,29 @@ func (b *builder) frame(fr *frame) {
 			}
 		}
 	}
-	// anonymous functions created in this frame's function
+	// anonymous functions created in this frame's function (closures, and capture-less literals used as plain values)
+	cloneAnon := func(af *ssa.Function) {
+		if _, done := fr.env[af]; done {
+			return
+		}
+		sub := inlineFunc(af, b.nf, b.policy)
+		setUnexported(sub.Fn, "anonIdx", int32(len(b.nf.AnonFuncs)))
+		b.nf.AnonFuncs = append(b.nf.AnonFuncs, sub.Fn)
+		fr.env[af] = ssa.Value(sub.Fn)
+		for k, v := range sub.FromDefer {
+			b.res.FromDefer[k] = v
+		}
+		for k, v := range sub.From {
+			b.res.From[k] = v
+		}
+		b.res.Expanded = append(b.res.Expanded, sub.Expanded...)
+	}
 	for _, ob := range fr.fn.Blocks {
 		for _, in := range ob.Instrs {
-			if mc, ok := in.(*ssa.MakeClosure); ok {
-				af := mc.Fn.(*ssa.Function)
-				if _, done := fr.env[af]; !done {
-					sub := inlineFunc(af, b.nf, b.policy)
-					b.nf.AnonFuncs = append(b.nf.AnonFuncs, sub.Fn)
-					fr.env[af] = ssa.Value(sub.Fn)
-					for k, v := range sub.FromDefer {
-						b.res.FromDefer[k] = v
-					}
-					for k, v := range sub.From {
-						b.res.From[k] = v
-					}
-					b.res.Expanded = append(b.res.Expanded, sub.Expanded...)
+			var buf [8]*ssa.Value
+			for _, op := range in.Operands(buf[:0]) {
+				if af, ok := (*op).(*ssa.Function); ok && af.Parent() == fr.fn && af.Blocks != nil {
+					cloneAnon(af)
 				}
 			}
 		}
